@@ -214,7 +214,11 @@ func (ex *Explorer) ExploreFrom(start *ssa.BasicBlock) []*Path {
 	}
 	if ex.Follow == nil {
 		ex.Follow = func(c *ssa.Function) bool {
-			return c.Pkg == ex.Root.Pkg && len(c.Blocks) > 0 && (c.Parent() != nil || !token.IsExported(c.Name()))
+			pk := c.Pkg
+			if pk == nil && c.Origin() != nil {
+				pk = c.Origin().Pkg // an instance of a generic helper of the package
+			}
+			return pk == ex.Root.Pkg && len(c.Blocks) > 0 && (c.Parent() != nil || !token.IsExported(c.Name()))
 		}
 	}
 	ex.loops = map[*ssa.Function]map[*ssa.BasicBlock]map[*ssa.BasicBlock]bool{}
